@@ -6,6 +6,8 @@
 #include <frg/hash_map.hpp>
 #include <unordered_map>
 #include <map>
+#include <set>
+#include <string_view>
 #include <algorithm>
 
 using namespace verif;
@@ -197,6 +199,43 @@ static void run_case(const char *mode, long long idx, uint64_t cs, size_t univer
 }
 
 // initializer-list constructor
+// an allocator handle whose moved-from state is dead (a move-only pool handle, a handle whose move constructor nulls the source):
+// the map takes its allocator by value and moves it into place, afterwards only the stored one may be used
+struct MovedFromDeadAlloc {
+	AllocState *st; bool dead = false;
+	explicit MovedFromDeadAlloc(AllocState *s) : st(s) {}
+	MovedFromDeadAlloc(const MovedFromDeadAlloc &) = default;
+	MovedFromDeadAlloc(MovedFromDeadAlloc &&o) : st(o.st), dead(o.dead) { o.dead = true; }
+	MovedFromDeadAlloc &operator=(const MovedFromDeadAlloc &) = default;
+	MovedFromDeadAlloc &operator=(MovedFromDeadAlloc &&o) { st = o.st; dead = o.dead; o.dead = true; return *this; }
+	void check(const char *what) { if(dead) violation("C14:model:hash_map:moved-from-allocator", std::string("hash_map called ") + what + " on an allocator object it had already moved from"); }
+	void *allocate(size_t n) { check("allocate()"); return TrackedAlloc(st).allocate(n); }
+	void free(void *p) { check("free()"); TrackedAlloc(st).free(p); }
+	void deallocate(void *p, size_t n) { check("deallocate()"); TrackedAlloc(st).deallocate(p, n); }
+};
+static void moved_from_allocator_case() {
+	begin_case("init-list", 1);
+	for(size_t n : {0, 1, 9, 10, 11, 12, 13, 40, 100}) {
+		Ctx c; c.type = strf("hash_map(init-list of %zu, allocator with a dead moved-from state)", n);
+		AllocState as; as.owner = "hash_map";
+		{
+			using Map = frg::hash_map<uint64_t, int, HIdentity, MovedFromDeadAlloc>;
+			std::vector<typename Map::entry_type> ents; for(size_t i = 0; i < n; i++) ents.push_back({(uint64_t)(i * 7 + 1), (int)i});
+			// (an initializer_list cannot be built from a run-time size: the two sizes around the reservation threshold are spelt out, the others go through inserts)
+			if(n == 12) { Map m(HIdentity(), {{1ull, 0}, {8ull, 1}, {15ull, 2}, {22ull, 3}, {29ull, 4}, {36ull, 5}, {43ull, 6}, {50ull, 7}, {57ull, 8}, {64ull, 9}, {71ull, 10}, {78ull, 11}}, MovedFromDeadAlloc(&as));
+				for(size_t i = 0; i < n; i++) { int *g = m.get((uint64_t)(i * 7 + 1)); if(!g || *g != (int)i) c.fail("get-present", "initializer-list map lost a key"); } m.insert(1000, 5); if(!m.get((uint64_t)1000)) c.fail("get-present", "insert after initializer-list construction"); }
+			else if(n == 10) { Map m(HIdentity(), {{1ull, 0}, {8ull, 1}, {15ull, 2}, {22ull, 3}, {29ull, 4}, {36ull, 5}, {43ull, 6}, {50ull, 7}, {57ull, 8}, {64ull, 9}}, MovedFromDeadAlloc(&as));
+				for(size_t i = 0; i < n; i++) { int *g = m.get((uint64_t)(i * 7 + 1)); if(!g || *g != (int)i) c.fail("get-present", "initializer-list map lost a key"); } }
+			else if(n == 40) { Map m(HIdentity(), {{1ull,0},{8ull,1},{15ull,2},{22ull,3},{29ull,4},{36ull,5},{43ull,6},{50ull,7},{57ull,8},{64ull,9},{71ull,10},{78ull,11},{85ull,12},{92ull,13},{99ull,14},{106ull,15},{113ull,16},{120ull,17},{127ull,18},{134ull,19},
+				{141ull,20},{148ull,21},{155ull,22},{162ull,23},{169ull,24},{176ull,25},{183ull,26},{190ull,27},{197ull,28},{204ull,29},{211ull,30},{218ull,31},{225ull,32},{232ull,33},{239ull,34},{246ull,35},{253ull,36},{260ull,37},{267ull,38},{274ull,39}}, MovedFromDeadAlloc(&as));
+				for(size_t i = 0; i < n; i++) { int *g = m.get((uint64_t)(i * 7 + 1)); if(!g || *g != (int)i) c.fail("get-present", "initializer-list map lost a key"); } for(size_t i = 0; i < n; i += 2) m.remove((uint64_t)(i * 7 + 1)); if(m.size() != n / 2) c.fail("size", "size after removing every other key"); }
+			else { Map m{HIdentity{}, MovedFromDeadAlloc{&as}}; for(auto &e : ents) m.insert(e.template get<0>(), e.template get<1>()); for(size_t i = 0; i < n; i++) { int *g = m.get((uint64_t)(i * 7 + 1)); if(!g || *g != (int)i) c.fail("get-present", "map lost a key"); } }
+		}
+		expect_no_blocks(as, "after destroying a map whose allocator has a dead moved-from state");
+		count("moved_from_allocator_cases");
+	}
+}
+
 template<typename H>
 static void init_list_case() {
 	begin_case("init-list", 0);
@@ -234,7 +273,10 @@ static void run_family(const char *vname) {
 // ---- class-type keys, and arguments that refer to each other: `m.insert(rec.name, std::move(rec))` (the key is a member of the value
 // that is being moved; a moved-from std::string is empty), `m.insert(m.begin()->key, ...)`-style keys that live inside the map.
 struct Rec { std::string name; int payload = 0; };
-struct HStr { unsigned operator()(const std::string &s) const { unsigned h = 2166136261u; for(char ch : s) h = (h ^ (unsigned char)ch) * 16777619u; return h; } };
+struct HStr { // (hashes a std::string and a view of the same characters alike: get<KeyCompatible>() may be given either)
+	unsigned operator()(std::string_view s) const { unsigned h = 2166136261u; for(char ch : s) h = (h ^ (unsigned char)ch) * 16777619u; return h; }
+	unsigned operator()(const std::string &s) const { return (*this)(std::string_view(s)); }
+};
 static void string_key_case(Rng &r, long long idx) {
 	Ctx c; c.type = "hash_map<std::string,Rec>";
 	AllocState as; as.owner = "hash_map";
@@ -276,7 +318,25 @@ static void string_key_case(Rng &r, long long idx) {
 				std::map<std::string, int> seen;
 				for(auto it = m.begin(); it != m.end(); ++it) { auto &e = *it; if(e.template get<0>() != e.template get<1>().name) c.fail("iteration", "an entry's key differs from the name in its record"); seen[e.template get<0>()] = e.template get<1>().payload; }
 				if(seen != ref) c.fail("iteration", "iteration does not visit exactly the reference's entries");
-				for(unsigned q = 0; q < uni && !c.bad; q++) { std::string qn = name_of(q); Rec *g = m.get(qn); if((g != nullptr) != (ref.count(qn) != 0)) c.fail(g ? "get-absent" : "get-present", "probe of " + qn + " disagrees with the reference"); }
+				for(unsigned q = 0; q < uni && !c.bad; q++) { std::string qn = name_of(q); Rec *g = m.get(qn); if((g != nullptr) != (ref.count(qn) != 0)) c.fail(g ? "get-absent" : "get-present", "probe of " + qn + " disagrees with the reference");
+					// the same lookup with a key of another type that compares and hashes like the stored one
+					Rec *gv = m.get<std::string_view>(std::string_view(qn)); if(gv != g) c.fail("get-compatible-key", "get<std::string_view>(" + qn + ") does not return what get(std::string) returns"); }
+				// a const map hands out const iterators: walking on from find() visits entries of the map, each at most once, until end()
+				const auto &cm = m;
+				for(unsigned q = 0; q < uni && q < 6 && !c.bad; q++) {
+					std::string qn = name_of(q); auto cf = cm.find(qn);
+					if((cf != cm.end()) != (ref.count(qn) != 0)) { c.fail("const-find", "find() on a const map disagrees with the reference on " + qn); break; }
+					std::set<std::string> seen; size_t steps = 0;
+					for(auto it = cf; it != cm.end() && steps <= ref.size(); ++it, ++steps) {
+						if(!(bool)it) { c.fail("const-iterator", "a const iterator that is not end() converts to false"); break; }
+						const std::string &k = it->template get<0>();
+						if(&(*it).template get<0>() != &k) { c.fail("const-iterator", "operator* and operator-> of a const iterator designate different entries"); break; }
+						auto rf = ref.find(k);
+						if(rf == ref.end() || rf->second != it->template get<1>().payload || !seen.insert(k).second) { c.fail("const-iterator", "walking a const iterator from find(" + qn + ") visits an entry that is not in the map (or one entry twice)"); break; }
+					}
+					if(steps > ref.size()) c.fail("const-iterator", "walking a const iterator does not reach end()");
+					count("const_iterator_walks");
+				}
 			}
 		}
 	}
@@ -333,6 +393,6 @@ int main(int argc, char **argv) {
 		for(uint64_t i = 0; i < n; i++) { uint64_t cs = sr.next(); if(!want_case(i)) continue; begin_case("string-keys", i); Rng r(cs); guarded(g_prop.c_str(), [&] { string_key_case(r, (long long)i); tracked_key_case(r, (long long)i); }); count("string_key_histories"); if(!rec.violations.empty()) break; }
 		sample("string-keys: hash_map<std::string, Rec{name,payload}> vs std::map; inserts pass rec.name as the key and std::move(rec) (or rec) as the value; removes pass the key stored inside the map");
 	}
-	if(want_mode("init-list")) { init_list_case<HIdentity>(); init_list_case<HConst>(); }
+	if(want_mode("init-list")) { init_list_case<HIdentity>(); init_list_case<HConst>(); guarded(g_prop.c_str(), [] { moved_from_allocator_case(); }); }
 	return finish();
 }
